@@ -10,7 +10,7 @@ from __future__ import annotations
 
 from ..core import AnalysisError
 
-from ..joinsx import JoinModel
+from ..joinsx import JoinModel, JoinOrderViolation
 from . import joinrules as jr
 from . import nameres
 
@@ -40,7 +40,11 @@ def run(ctx) -> None:
     ctx.section("inner_join-facts", inner)
     for v in ("join", "full_join"):
         def one(v=v):
-            jf = JoinModel(ctx.prog, v)
+            try:
+                jf = JoinModel(ctx.prog, v)
+            except JoinOrderViolation as ex:
+                ctx.ob("e.loops-keys", ctx.prog.func(f"table.Table.{v}"), "emission-order", False, "", ex.node, message=str(ex))
+                return
             facts[v] = jf
             jr.no_early_result(ctx, jf, "a.no-early-result")
             jr.left_complete(ctx, jf)
